@@ -7,6 +7,7 @@ import (
 	"os"
 	"runtime"
 	"strconv"
+	"strings"
 	"sync"
 	"sync/atomic"
 	"time"
@@ -27,6 +28,7 @@ func init() { subcmds["conc"] = concCmd }
 //	EV <id> SUB <chan idx> <t_send> <t_ack>       one SUBSCRIBE command and its confirmation
 //	EV <id> UNSUB <chan idx> <t_before> <t_after>  ChanMap.UnSubscribe (API), no reply
 //	EV <id> BARRIER <t>                            one unknown command and its error reply
+//	EV <id> DROPPED                                the server dropped the connection after a write to it timed out (stall mode only)
 //	EV <id> END graceful|abrupt|stalled <t_end> <t_closed>
 //	STREAM <id> <hex>
 //	FAIL <text>
@@ -66,7 +68,7 @@ func concCmd(args []string) error {
 		return err
 	}
 	if stall {
-		memdb.VerifSetPubSubWriteTimeout(300 * time.Millisecond)
+		memdb.VerifSetPubSubWriteTimeout(time.Second)
 	}
 	subs := env.mgr.DBs[0].SubChans
 
@@ -131,10 +133,21 @@ func concCmd(args []string) error {
 				}
 				emit("CONN %d normal", id)
 				mine := map[int]bool{}
+				// With the shortened write deadline (stall mode) the server may legitimately drop this
+				// subscriber when a write to it took longer than the deadline (machine under load):
+				// that is what the deadline is for.  Recorded, not a failure; no claim is made about what
+				// the connection should have received after its last acknowledged command.
+				cmdFailed := func(what string, err error) {
+					if stall && err == errServerClosed && strings.Contains(c.srv.firstWriteErr(), "i/o timeout") {
+						emit("EV %d DROPPED", id)
+						return
+					}
+					emit("FAIL conn %d %s: %v (first server-side write error: %q)", id, what, err, c.srv.firstWriteErr())
+				}
 				subscribe := func(ci int) bool {
 					ts := now()
 					if err := c.command(10*time.Second, []byte("SUBSCRIBE"), chans[ci]); err != nil {
-						emit("FAIL conn %d SUBSCRIBE: %v", id, err)
+						cmdFailed("SUBSCRIBE", err)
 						return false
 					}
 					emit("EV %d SUB %d %d %d", id, ci, ts, now())
@@ -156,7 +169,7 @@ func concCmd(args []string) error {
 						emit("EV %d UNSUB %d %d %d", id, ci, t1, t2)
 						delete(mine, ci)
 						if err := c.command(10*time.Second, []byte("verifbarrier")); err != nil {
-							emit("FAIL conn %d barrier: %v", id, err)
+							cmdFailed("barrier", err)
 							ok = false
 							break
 						}
@@ -171,7 +184,7 @@ func concCmd(args []string) error {
 				if ok && r.chance(1, 2) {
 					kind = "graceful"
 					if err := c.command(10*time.Second, []byte("verifbarrier")); err != nil {
-						emit("FAIL conn %d final barrier: %v", id, err)
+						cmdFailed("final barrier", err)
 						kind = "abrupt"
 					} else {
 						emit("EV %d BARRIER %d", id, now())
